@@ -485,6 +485,11 @@ class Unit:
                 w = ch[1]
                 fq = w.qual()
                 is_canary = ch[0] == "fn_canary"
+                # facts about locals established before a loop stay available inside it: a harmless refactoring such as
+                # `let bytes = s.as_bytes();` ahead of a loop must not break the proof (measured: a false alarm without this)
+                if w.loops() and not getattr(w, "keep_isolation", False):
+                    emit("#[verifier::loop_isolation(false)]", {"kind": "ghost", "fn": fq})
+                    emit("#[verifier::allow_complex_invariants]", {"kind": "ghost", "fn": fq})
                 for a in w.attrs:
                     emit(a, {"kind": "ghost", "fn": fq})
                 hdr = w.header_new if w.header_new is not None else w.ex.header.rstrip()
